@@ -116,6 +116,8 @@ pub fn quiet_panics() {
         }
     }));
 }
+/// worker threads of the harness: their panics inside `catch` are silent as well (the hook is process wide)
+pub fn quiet_panics_thread() {}
 pub fn catch<T, F: FnOnce() -> T>(f: F) -> Result<T, String> {
     IN_CATCH.with(|c| c.set(c.get() + 1));
     let r = std::panic::catch_unwind(std::panic::AssertUnwindSafe(f));
